@@ -1,6 +1,7 @@
 package main
 
 import (
+	"go/types"
 	"go/constant"
 	"fmt"
 	"sort"
@@ -180,6 +181,7 @@ func init() {
 			"(reverse-diff) building the reverse diff classifies the 'no log entry' sentinel (shared with C03); (root-auth) Revert authenticates the root before mutating and before success; (one-batch) the RevertHead closures write only through the batch (shared with C05); " +
 			"(in-memory-inverse) RunningEventFilter.inner/next are written only by insert/onReorg/ensureInit/UnmarshalBinary; (no-early-success) in the state packages and the block-content helpers no success return sits inside the body of a range loop over the entries being applied or undone — a per-entry step may skip its entry (continue) or fail, but not end the whole pass early. Not decided: observational equality of the values, fork convergence."
 		c04NoEarlySuccess(c)
+		c04EverySection(c)
 		ci := p.caps()
 		r := p.newResolver()
 		nilCfg := nilConfigTrieDB(c, "inverse-buckets")
@@ -607,10 +609,23 @@ func c03Gates(c *Ctx) {
 			continue
 		}
 		reach := p.Reachable([]*ssa.Function{f}, func(caller, callee *ssa.Function) bool { return pkgRelOf(callee) != a.pkg })
+		// the probe must actually read the recorded deployment height (new backend: Contract.DeployedHeight; legacy: the
+		// ContractDeploymentHeight bucket) — inferring deployment from something else (e.g. a class-hash history entry)
+		// misses contracts that have none (the class-less system contracts)
 		found := false
 		for _, g := range reach.Funcs() {
-			if strings.Contains(g.Name(), "ContractDeployedAt") || strings.Contains(g.Name(), "checkDeployed") || strings.Contains(g.Name(), "DeployedAt") {
-				found = true
+			allInstrs(g, func(in ssa.Instruction) {
+				if fa, ok := in.(*ssa.FieldAddr); ok && fieldName(fa.X.Type(), fa.Field) == "DeployedHeight" {
+					found = true
+				}
+				if fl, ok := in.(*ssa.Field); ok && fieldName(fl.X.Type(), fl.Field) == "DeployedHeight" {
+					found = true
+				}
+			})
+			for _, s := range sitesOf(g) {
+				if strings.Contains(s.CalleeName(), "ContractDeploymentHeight") || strings.Contains(s.CalleeName(), "DeploymentHeight") {
+					found = true
+				}
 			}
 		}
 		c.check(found, "gates", a.pkg+"."+a.recv+"."+a.name, p.Pos(fnPos(f)), "consults the contract's deployment height", "historical accessor answers without consulting the contract's deployment height: a contract deployed later would appear to exist")
@@ -856,4 +871,93 @@ func c03BoundedIterator(c *Ctx) {
 		c.und("bounded-iterator", "prefix iterators", "", fmt.Sprintf("only %d prefix iterators found", n))
 	}
 	c.needFixture("bounded-iterator")
+}
+
+// c04EverySection: an undo helper that walks several sections of a state diff reaches every one of its section loops on
+// every path that can report success: a success return (nil, or another helper's result) taken before a section loop skips
+// that section for blocks that have entries in both.
+func c04EverySection(c *Ctx) {
+	p := c.P
+	n := 0
+	for _, fn := range p.sortedFuncs() {
+		pr := pkgRelOf(fn)
+		if !(pr == "core/deprecatedstate" || pr == "core/state" || pr == "blockchain/statebackend") || fn.Origin() != nil || fn.Parent() != nil || strings.HasSuffix(p.Pos(fnPos(fn)), "_test.go") {
+			continue
+		}
+		nm := strings.ToLower(fn.Name())
+		if !(strings.HasPrefix(nm, "revert") || strings.HasPrefix(nm, "delete") || strings.HasPrefix(nm, "purge") || strings.Contains(nm, "deletions") || strings.HasPrefix(nm, "zzveriffixturec04section")) {
+			continue
+		}
+		res := fn.Signature.Results()
+		if res.Len() != 1 || res.At(0).Type().String() != "error" {
+			continue
+		}
+		// section loops: range loops whose operand is a field of a StateDiff
+		var headers []*ssa.BasicBlock
+		for _, b := range fn.Blocks {
+			if b.Comment != "rangeiter.loop" && b.Comment != "rangeindex.loop" {
+				continue
+			}
+			isSection := false
+			for _, pred := range b.Preds {
+				for _, in := range pred.Instrs {
+					if rg, ok := in.(*ssa.Range); ok && strings.Contains(termF(rg.X), "StateDiff.") {
+						isSection = true
+					}
+				}
+			}
+			// rangeindex loops: len(x) computed before
+			if isSection {
+				headers = append(headers, b)
+			}
+		}
+		// a same-package helper that is handed a section of the diff stands for that section's loop
+		for _, s := range sitesOf(fn) {
+			if s.Callee == nil || s.Callee.Pkg != fn.Pkg || s.Callee == fn {
+				continue
+			}
+			for _, a := range s.Args() {
+				switch a.Type().Underlying().(type) {
+				case *types.Map, *types.Slice:
+					if strings.Contains(termF(a), "StateDiff.") {
+						headers = append(headers, s.Block())
+					}
+				}
+			}
+		}
+		if len(headers) < 2 {
+			continue
+		}
+		n++
+		bad := ""
+		for _, ret := range returnsOf(fn) {
+			r := ret.Results[0]
+			if !isNilConst(r) {
+				// an error path: the returned value is known to be non-nil here, or is a freshly made error
+				if call, isCall := r.(*ssa.Call); isCall {
+					if cal := call.Call.StaticCallee(); cal != nil && cal.Pkg != nil && (cal.Pkg.Pkg.Path() == "fmt" || cal.Pkg.Pkg.Path() == "errors") {
+						continue
+					}
+				}
+				d := p.mustHoldAt(ret.Ret)
+				if ok, _ := everyDisjunctHas(d, []string{"(" + term(r) + " != nil)"}); ok && len(d) > 0 {
+					continue
+				}
+				if _, isCall := r.(*ssa.Call); !isCall {
+					if _, isPhi := r.(*ssa.Phi); !isPhi {
+						continue // a named error value that is only ever returned when set
+					}
+				}
+			}
+			for _, h := range headers {
+				if !h.Dominates(ret.Ret.Block()) {
+					bad = p.Pos(posOf(ret.Ret, fn))
+				}
+			}
+		}
+		c.check(bad == "", "every-section", qname(fn), p.Pos(fnPos(fn)), "every success path passes all of the function's state-diff section loops", "the return at "+bad+" can report success without having walked every section loop of this undo helper: a block with entries in both sections keeps the entries of the skipped one after its revert")
+	}
+	if n < 2 {
+		c.und("every-section", "undo helpers", "", fmt.Sprintf("only %d multi-section undo helpers found", n))
+	}
 }
